@@ -360,7 +360,45 @@ def rule_keyhash(ctx):
                   "decrypt can reach the HMAC with `_key_hash` unset/empty", dec.loc(uses[0].ast))
 
 
+def rule_public_fail(ctx):
+    """PUBLIC-FAIL: the only failure decrypt() reports is `None` for a publicly invalid ciphertext: every
+    exception an implementation of the raw private-key operation can raise (explicit-raise summary,
+    all RSAKey subclasses) is of a class the handler around its call in decrypt() catches, and that
+    handler returns None."""
+    R = "C11.PUBLIC-FAIL"
+    dec = ctx.index.func("utils.rsakey:RSAKey.decrypt")
+    g = ctx.an.cfg(dec)
+    call = [n for n in g.nodes if n.ast is not None and n.kind == "stmt"
+            and any(call_name(c) == "_raw_private_key_op_bytes" for c in calls_in(n.ast))]
+    if not call:
+        raise AnalysisError("C11.PUBLIC-FAIL: raw private key operation call not found in decrypt")
+    caught = []
+    for (tr, h, hn) in g.handlers:
+        if any(any(x is call[0].ast for x in ast.walk(b)) for b in tr.body):
+            body = [norm(b) for b in h.body if not (isinstance(b, ast.Expr) and isinstance(b.value, ast.Constant))]
+            if body == ["return None"]:
+                caught += [norm(t) for t in (h.type.elts if isinstance(h.type, ast.Tuple) else [h.type])] if h.type is not None else ["BaseException"]
+    ctx.check(R, bool(caught), dec.qname, "handler around the raw operation returns None",
+              "decrypt() must turn a failure of the raw private-key operation into `return None`", dec.loc(call[0].ast))
+    impls = [m for c in [ctx.index.cls("utils.rsakey:RSAKey")] + ctx.index.cls("utils.rsakey:RSAKey").descendants()
+             for m in c.methods.values() if m.name in ("_raw_private_key_op_bytes", "_rawPrivateKeyOp")]
+    ctx.require(len(impls) >= 2, "C11.PUBLIC-FAIL: implementations of the raw private key operation not found")
+    for m in impls:
+        for e in sorted(ctx.an.raises(m)):
+            if e == "NotImplementedError":
+                ctx.exempt(R, "%s: NotImplementedError" % m.short, "abstract-method marker of the base class; "
+                           "every concrete key class overrides _rawPrivateKeyOp")
+                continue
+            ok = any(g._is_sub(e, t) for t in caught)
+            ctx.check(R, ok, m.qname, "%s raised by %s is caught by decrypt()" % (e, m.short),
+                      "%s can raise %s, which the handler in RSAKey.decrypt (%s) does not catch: a ciphertext that "
+                      "is merely out of range makes decrypt() raise instead of returning None, and the server "
+                      "drops the connection at ClientKeyExchange without an alert - a distinguishable outcome"
+                      % (m.short, e, ", ".join(caught) or "none"), m.loc())
+
+
 RULES = [
+    ("C11.PUBLIC-FAIL", "quick", rule_public_fail),
     ("C11.KEYHASH", "quick", rule_keyhash),
     ("C11.TAINT", "quick", rule_taint),
     ("C11.HEADER", "quick", rule_header),
